@@ -482,6 +482,16 @@ def range_from_inner_len(t):
         if nd and nd[0] == "agg" and nd[1] == "Range::Range" and len(nd[2]) == 2 and "inner" in show(nd[2][0]) and \
                 any(x and x[0] == "call" and x[1][1] == "len" for x in walk(nd[2][0])):
             return nd[2][1]
+        # `0..X.saturating_sub(self.inner.len())`: one step per missing column as well
+        if nd and nd[0] == "agg" and nd[1] == "Range::Range" and len(nd[2]) == 2 and nd[2][0] == ("const", "0"):
+            e = nd[2][1]
+            pair = None
+            if e[0] == "call" and e[1][1] in ("saturating_sub", "checked_sub", "wrapping_sub") and len(e[2]) == 2:
+                pair = e[2]
+            elif e[0] == "bin" and e[1] == "Sub":
+                pair = (e[2], e[3])
+            if pair and "inner" in show(pair[1]) and any(x and x[0] == "call" and x[1][1] == "len" for x in walk(pair[1])):
+                return pair[0]
     return None
 
 
